@@ -509,3 +509,103 @@ def valid_updates_on_every_receive_path(tier, seed):
 @replayer('C03', 'valid-updates-on-every-receive-path')
 def _replay_valid_cfg(f):
     return _valid_on_config(f['input']['neighbor_options'], f['input']['message']) is None
+
+
+# ---------------------------------------------------------------------------------------------------------------------
+# "finishes in time proportional to the message size": CPU time of the decode (Message.unpack + the parsed collection)
+# at n and at 4n elements, for the shapes whose element count a peer controls; linear gives a ratio of 4, quadratic 16.
+def _scaling_body(shape, n):
+    attrs = W.origin(0) + W.as_path([65001], True) + W.next_hop('192.0.2.1')
+    pfx = [bytes([24, 10, (i >> 8) & 255, i & 255]) for i in range(n)]
+    if shape == 'announces':
+        return W.update_body(b'', attrs, b''.join(pfx))
+    if shape == 'withdraws':
+        return W.update_body(b''.join(pfx), b'', b'')
+    if shape == 'withdraws and announces of the same prefixes':
+        return W.update_body(b''.join(pfx), attrs, b''.join(pfx))
+    if shape == 'withdraws and announces of different prefixes':
+        return W.update_body(b''.join(bytes([24, 11, (i >> 8) & 255, i & 255]) for i in range(n)), attrs, b''.join(pfx))
+    if shape == 'communities':
+        return W.update_body(b'', attrs + bytes([0xD0, 8]) + struct.pack('!H', 4 * n) + b''.join(struct.pack('!HH', 65000, i & 0xFFFF) for i in range(n)), pfx[0])
+    if shape == 'unknown attributes':
+        return W.update_body(b'', attrs + b''.join(W.unknown(128 + (i % 100), b'', transitive=False) for i in range(n)), pfx[0])
+    if shape == 'repeated attribute':
+        return W.update_body(b'', attrs + W.unknown(99, b'') * n, pfx[0])
+    raise ValueError(shape)
+
+
+def _decode_cpu(body):
+    from exabgp.bgp.message import Message
+
+    nb, neg = P.get_session('ebgp4')
+    saved = neg.msg_size
+    best = None
+    for _ in range(3):
+        t0 = time.thread_time()
+        m = Message.unpack(2, memoryview(body), neg)
+        if not getattr(m, 'IS_EOR', False):
+            d = m.data
+            len(d.announces), len(d.withdraws)
+        dt = time.thread_time() - t0
+        best = dt if best is None else min(best, dt)
+    return best
+
+
+SCALING_SHAPES = ['announces', 'withdraws', 'withdraws and announces of the same prefixes', 'withdraws and announces of different prefixes', 'communities', 'unknown attributes', 'repeated attribute']
+
+
+def _scaling_case(shape):
+    n = 400
+    inp = {'shape': shape, 'n': n}
+    try:
+        t1 = _decode_cpu(_scaling_body(shape, n))
+        t4 = _decode_cpu(_scaling_body(shape, 4 * n))
+    except Exception as e:  # noqa
+        if type(e).__name__ == 'Notify':
+            return None
+        return {'what': f'decoding a large valid UPDATE ({shape}) raised {type(e).__name__}: {str(e)[:100]}', 'input': inp}
+    # 4 times the elements: at most 10 times the CPU time (linear: 4), and only judged when the time is measurable
+    if t4 > 0.05 and t4 > 10 * max(t1, 0.002):
+        return {'what': f'decode time is not proportional to the size ({shape}): {n} elements {t1 * 1000:.1f} ms, {4 * n} elements {t4 * 1000:.1f} ms (x{t4 / max(t1, 1e-9):.1f} for x4)', 'input': inp}
+    return None
+
+
+@bounded('C03', 'time-scaling')
+def time_scaling(tier, seed):
+    fails = []
+    for shape in SCALING_SHAPES:
+        f = _scaling_case(shape)
+        if f:
+            fails.append(f)
+    return {'evaluations': len(SCALING_SHAPES), 'distinct_nontrivial': len(SCALING_SHAPES), 'bound': f'{len(SCALING_SHAPES)} UPDATE shapes whose element count the peer controls (NLRI announced, withdrawn, both; communities; unknown and repeated attributes) at 400 and 1600 elements: CPU time of Message.unpack + parse, best of 3; flagged above x10 for x4', 'rule': 'one case = one shape', 'samples': [{'shape': SCALING_SHAPES[2]}], 'failures': fails}
+
+
+@replayer('C03', 'time-scaling')
+def _replay_scaling(f):
+    return _scaling_case(f['input']['shape']) is None
+
+
+# ---------------------------------------------------------------------------------------------------------------------
+# the generated UPDATE shapes of the C13 layer (attribute subsets, TLV multiplicity at two nesting levels, PMSI identifier
+# sizes, IEEE floats, IS-IS area sizes, tunnel encapsulation): what decodes is rendered, indexed and hashed without any
+# error which is not a NOTIFICATION -- on the plain all-families session and on the extended next-hop one
+@bounded('C03', 'generated-shapes')
+def generated_shapes(tier, seed):
+    from . import c13
+
+    fails, evals, kinds = [], 0, set()
+    for body, what in c13.update_shapes():
+        for nh in (False, True):
+            evals += 1
+            f = decode_render(2, body, nh=nh)
+            if f and f['what'][:60] not in kinds:
+                kinds.add(f['what'][:60])
+                f['what'] += f' ({what})'
+                fails.append(f)
+    return {'evaluations': evals, 'distinct_nontrivial': evals, 'bound': f'{evals // 2} generated UPDATE shapes x 2 sessions: decoded, every NLRI and the attributes rendered (str, json), indexed and hashed', 'rule': 'one case = (UPDATE body, session)', 'samples': [{'shape': 'PMSI tunnel type 6 with an identifier of 16 octets'}], 'failures': fails[:10]}
+
+
+@replayer('C03', 'generated-shapes')
+def _replay_shapes(f):
+    i = f['input']
+    return decode_render(i['type'], bytes.fromhex(i['body']), nh=i.get('extended_nexthop_negotiated', False)) is None
